@@ -233,7 +233,15 @@ def genexp(eng, node, st, fid):
     gen = _single_gen(node)
 
     def mk(s, seq):
-        i, cond, vals, extra = _element(eng, [node.elt], gen, s, fid, seq)
+        try:
+            i, cond, vals, extra = _element(eng, [node.elt], gen, s, fid, seq)
+        except Unsupported:
+            if seq.known_len is not None and seq.known_len <= 6 and seq.tag == "tuple":
+                # (f(b) for b in <tuple of fixed arity>), e.g. max(abs(b) for b in r.bounds): a tuple cannot be indexed
+                # symbolically; the elements are evaluated one by one, in order, and handed on as a tuple (the consumers
+                # min / max / sum / tuple() / a for loop read all of them at once anyway)
+                return _unrolled_list(eng, node, gen, s, fid, seq, as_tuple=True)
+            raise
         s = _with_extras(s, seq, i, cond, extra)
         return [("ok", s, VGen(seq, i, cond, vals[0]))]
     return eng.bind(_source_seq(eng, st, fid, gen), mk)
@@ -251,7 +259,7 @@ def listcomp(eng, node, st, fid):
     return eng.bind(_source_seq(eng, st, fid, gen), mk)
 
 
-def _unrolled_list(eng, node, gen, st, fid, seq):
+def _unrolled_list(eng, node, gen, st, fid, seq, as_tuple=False):
     cf = new_fid()
     outs = [("ok", st.with_frame(cf, fid, {}), [])]
     for k in range(seq.known_len):
@@ -278,7 +286,7 @@ def _unrolled_list(eng, node, gen, st, fid, seq):
                 return eng.bind(eng.eval(node.elt, s2, cf), lambda s3, v: [("ok", s3, acc + [v])])
             return eng.bind(conds, elt)
         outs = eng.bind(outs, step)
-    return eng.bind(outs, lambda s, vs: [B.list_from_values(eng, s, vs)])
+    return eng.bind(outs, lambda s, vs: [("ok", s, VTuple(vs))] if as_tuple else [B.list_from_values(eng, s, vs)])
 
 
 def gen_to_seq(eng, st, g):
@@ -429,7 +437,21 @@ def set_of_gen(eng, st, g):
     ax1 = FA([i], z3.Implies(rng(i), z3.Select(dom, unwrap(g.elt_at(i), kkind))))
     ax2 = FA([k], z3.Implies(z3.Select(dom, k), z3.And(rng(wit[k]), unwrap(g.elt_at(wit[k]), kkind) == k)),
                     patterns=[z3.Select(dom, k)])
-    st, s = alloc_set(st.assume(ax1, ax2), kkind, dom=dom)
+    axs = [ax1, ax2]
+    src = g.seq.src
+    if g.seq.tag == "setiter" and isinstance(src, tuple) and len(src) >= 4 and src[0] == "order":
+        # {x for x in <set> if cond(x)}: every element of the source set that satisfies the condition is in the result
+        # (the same fact as ax1, triggered by membership in the SOURCE set instead of by an enumeration index)
+        _, order, pos, sdom = src[:4]
+        probe = z3.Const(fresh_name("cj"), I)
+        try:
+            same = z3.simplify(unwrap(g.elt_at(probe), kkind)).eq(z3.simplify(z3.Select(order, probe)))
+        except Exception:  # noqa
+            same = False
+        if same:
+            x = z3.Const(fresh_name("cx"), ksort)
+            axs.append(FA([x], z3.Implies(z3.And(z3.Select(sdom, x), g.cond_at(pos[x])), z3.Select(dom, x)), patterns=[z3.Select(sdom, x)]))
+    st, s = alloc_set(st.assume(*axs), kkind, dom=dom)
     return [("ok", st, s)]
 
 
